@@ -19,7 +19,7 @@ def lex(text):
 CLAIMED = {
  'C01': lex('Maximal munch / first-rule priority / rewind: item kind, rule id and lexeme of every next() call equal the reference tokenisation, on curated rewind definitions (incl. the quoted counterexample) and seeded random rule sets with shared prefixes.'),
  'C02': lex('Single-rule lexers over bounded-exhaustive small regex trees, operator-law pairs and random trees: the token length on every input equals the longest prefix in the documented language (so accept/reject of every string up to N is decided).'),
- 'C03': lex('Multi-rule-set definitions with switch / switch_and_return / dynamic decisions: the item is one the active rule set produces (every action in the implementation's own log belongs to the rule set active when it ran; a wrong item that another rule set would produce counts as entering the wrong rule set; a user error does not change the rule set) and after every call __state == __initial_state == the entry state the real `switch` assigns to the rule set the reference is in.'),
+ 'C03': lex('Multi-rule-set definitions with switch / switch_and_return / dynamic decisions: the item is one the active rule set produces (every action in the log of the implementation belongs to the rule set active when it ran; a wrong item that another rule set would produce counts as entering the wrong rule set; a user error does not change the rule set) and after every call __state == __initial_state == the entry state the real `switch` assigns to the rule set the reference is in.'),
  'C04': lex('Rules with right contexts of every shape (multi-character literals, sets, repetition, nullable, `$`): match iff the context matches the following input, lexeme/locations exclude the context, failed contexts fall through; a context the macro cannot compile is reported as a violation.'),
  'C05': lex('End-of-input protocol: `$` only at the end and zero-width, preferred over the same lexeme without it, None in Init at a boundary, error elsewhere, done flag absorbing, no character dropped (input position after each call equals the reference).'),
  'C06': lex('All Loc values of tokens, action invocations (match_loc) and the post-call match start/end equal the reference scan (newline, tab=4, uninterpreted display width, UTF-8 length) from a symbolic start location, incl. after rewinds.'),
